@@ -77,6 +77,38 @@ def mapped_trigger_scripts(rng, tier):
     return out
 
 
+def greeting_scripts(rng, tier):
+    """the server app has been running frames while the server was stopped (idle before its start, or between a stop and a
+    start); a client is authorized and greeted with events that depend on entities spawned in the very first running frame, which
+    is not a tick: the events must wait for the tick that replicates those entities"""
+    out = []
+    for i in range(24 if tier == "quick" else 800):
+        lines = ["cfg policy=all auth=none track=0 nclients=2 timeout=10000", "sframe 0 10"]
+        if rng.random() < 0.5:
+            # an earlier session, ended by a stop
+            lines += ["start", "sframe 0 10", "connect 1 1200", "sop spawn 9 1 0=1", "sframe 1 16", "deliver 1 s2c 0 all", "cframe 1", "deliver 1 c2s 0 all",
+                      "stop", "disconnect 1", "cframe 1"]
+            for _ in range(rng.randrange(1, 3)):
+                lines.append("sframe %d 10" % rng.randrange(2))
+        lines += ["start", "connect 0 1200"]
+        seq, ent = 0, 1
+        for _ in range(rng.randrange(1, 3)):
+            lines.append("sop spawn %d 1 0=%d" % (ent, rng.randrange(50)))
+            seq += 1
+            lines.append("sop ev %s d0 %d%s" % (rng.choice(["SE0", "SEM", "ST"]), seq, ""))
+            if lines[-1].split()[2] == "SEM":
+                lines[-1] += " r%d" % ent
+            ent += 1
+        lines.append("sframe 0 10")                      # the first running frame: no tick
+        for _ in range(rng.randrange(1, 3)):
+            lines += ["deliver 0 s2c 2 all", "deliver 0 s2c 4 all", "deliver 0 s2c 6 all", "cframe 0"]
+        lines += ["sframe 1 16", "deliver 0 s2c 2 all", "deliver 0 s2c 4 all", "deliver 0 s2c 6 all", "cframe 0", "deliver 0 s2c 0 all", "cframe 0", "deliver 0 c2s 0 all"]
+        meta = dict(connected=[0], events=True)
+        sf = len(lines)
+        out.append(("greeting-%d" % i, lines + gen_scripts.settle_lines(meta), sf))
+    return out
+
+
 def wrap_event_scripts(rng, tier):
     """implementation only (the Layer 1 model starts at tick 0): a long-running server whose tick crosses 2^32 while events
     overtake the update messages of their ticks: an event stamped with a small post-wrap tick must wait although the client's
@@ -115,8 +147,8 @@ def wrap_event_scripts(rng, tier):
 
 
 def run(tier, seed, replay):
-    kws = [dict(events=True, weights=dict(sev=4.0, edeliver=5.0, deliver=2.0)), dict(events=True, nclients=3, auth="custom"), dict(events=True, policy="black"), dict(events=True, weights=dict(sev=3.0, sop=6.0))]
-    return sim_check("C04", tier, seed, kws, n_quick=240, n_thorough=24000, oracle_props={"C04"}, known_ids=("D19", "D31"), custom_scripts=mixed_tick_scripts, impl_only_scripts=lambda rng, tier: mapped_trigger_scripts(rng, tier) + wrap_event_scripts(rng, tier),
+    kws = [dict(events=True, weights=dict(sev=4.0, edeliver=5.0, deliver=2.0)), dict(events=True, nclients=3, auth="custom"), dict(events=True, policy="black"), dict(events=True, weights=dict(sev=3.0, sop=6.0)), dict(events=True, sessions=True, weights=dict(session=0.7, sev=4.0, sframe=4.0))]
+    return sim_check("C04", tier, seed, kws, n_quick=240, n_thorough=24000, oracle_props={"C04"}, known_ids=("D19", "D31"), custom_scripts=lambda rng, tier: mixed_tick_scripts(rng, tier) + greeting_scripts(rng, tier), impl_only_scripts=lambda rng, tier: mapped_trigger_scripts(rng, tier) + wrap_event_scripts(rng, tier),
                      impl_only_label="a server trigger with a mapped payload whose target the client cannot resolve; events overtaking update messages while the server tick crosses 2^32",
                      rule_extra=", server events of every kind (ordered, independent, mapped, unreliable, triggers with targets) emitted in arbitrary frames with event channels delayed independently of the update channel",
                      extra_assumptions=["'withheld' is read as 'not delivered': a ready event whose entity cannot be resolved on the client is dropped, not retried (C04_references_resolve_or_dropped)"],
